@@ -76,11 +76,10 @@ theorem C13_field_order_sysline (p : Pal) (last : Last) (o : Opts) (m : SysMsg) 
     plainStream p last o (.sysline m) = decorated o m.lines := by
   rw [C13_plainStream_eq]; exact wrOf_print_sysline o m hs
 
-/-- accounting records: the fields once in front of the record — file then datetime, except in
-the variant without colour with both fields, where the code writes the datetime first -/
+/-- accounting records: the fields once in front of the record — file then datetime, in all
+eight variants -/
 theorem C13_field_order_fixedstruct (p : Pal) (last : Last) (o : Opts) (m : BufMsg) (hs : m.beg ≤ m.fin) :
-    plainStream p last o (.fixedstruct m) =
-      (if fixedSwapped o then optBytes o.date ++ optBytes o.file else optBytes o.file ++ optBytes o.date) ++ m.data := by
+    plainStream p last o (.fixedstruct m) = optBytes o.file ++ optBytes o.date ++ m.data := by
   rw [C13_plainStream_eq]; exact wrOf_print_fixedstruct o m hs
 
 /-- "the fields come in the same order (file, then datetime) for every kind of message and every
@@ -89,20 +88,13 @@ def C13_field_order_full : Prop :=
   ∀ (p : Pal) (last : Last) (o : Opts) (m : Msg), spanOk m → linesOf m = [m.payload] →
     plainStream p last o m = optBytes o.file ++ (optBytes o.date ++ m.payload)
 
-/-- … is false of the code: `print_fixedstruct_prependfile_prependdate` writes the datetime first -/
-theorem C13_field_order_full_false : ¬ C13_field_order_full := by
-  intro h
-  have := h ⟨[], [], []⟩ none ⟨false, some [70], some [68]⟩ (.fixedstruct ⟨[120, 10], 0, 0⟩) (Nat.le_refl 0) (by decide)
-  revert this; decide
-
-/-- the strongest true variant: every kind and colour setting except that one variant -/
-theorem C13_field_order_partial (p : Pal) (last : Last) (o : Opts) (m : Msg) (hs : spanOk m)
-    (h1 : linesOf m = [m.payload]) (hx : m.kind = .fixedstruct → fixedSwapped o = false) :
-    plainStream p last o m = optBytes o.file ++ (optBytes o.date ++ m.payload) := by
+/-- … holds of the code: every kind, every colour setting, every combination of fields -/
+theorem C13_field_order_full_holds : C13_field_order_full := by
+  intro p last o m hs h1
   cases m with
   | sysline m => rw [C13_field_order_sysline p last o m hs]; simp [decorated, linesOf] at *; simp [h1]
   | fixedstruct m =>
-    rw [C13_field_order_fixedstruct p last o m hs, hx rfl]; simp [Msg.payload]
+    rw [C13_field_order_fixedstruct p last o m hs]; simp [Msg.payload]
   | evtx m =>
     rw [C13_plainStream_eq]; simp only [ops, wrOf_print_evtx o m hs]
     split
@@ -114,18 +106,25 @@ theorem C13_field_order_partial (p : Pal) (last : Last) (o : Opts) (m : Msg) (hs
     · rename_i hp; obtain ⟨c, f, d⟩ := o; cases f <;> cases d <;> simp_all [plainOpts, optBytes, Msg.payload]
     · simp [decorated, linesOf] at *; simp [h1]
 
-/-- colour adds nothing but escapes: same stream without them, for every kind but the swapped
-accounting-record variant -/
-theorem C13_colour_only_escapes (p p' : Pal) (last last' : Last) (f d : Option Bytes) (m : Msg) (hs : spanOk m)
-    (hx : m.kind = .fixedstruct → (f.isSome && d.isSome) = false) :
+/-- counter-model of the defect that was repaired: `print_fixedstruct_prependfile_prependdate`
+(accounting record, no colour, both fields) used to write the datetime field BEFORE the file-name
+field -/
+def print_fixedstruct_swapped (f d : Bytes) (m : BufMsg) : List Op := [.wr d, .wr f, .wr m.data]
+
+/-- with that variant `C13_field_order_full` was false: file field `F`, datetime field `D`,
+record `x\n` came out as `DFx\n`, not `FDx\n` -/
+theorem swapped_order_differs :
+    wrOf (print_fixedstruct_swapped [70] [68] ⟨[120, 10], 0, 0⟩) ≠
+      optBytes (some [70]) ++ optBytes (some [68]) ++ (⟨[120, 10], 0, 0⟩ : BufMsg).data := by decide
+
+/-- colour adds nothing but escapes: same stream without them, for every kind of message and
+every combination of fields -/
+theorem C13_colour_only_escapes (p p' : Pal) (last last' : Last) (f d : Option Bytes) (m : Msg) (hs : spanOk m) :
     plainStream p last ⟨true, f, d⟩ m = plainStream p' last' ⟨false, f, d⟩ m := by
   rw [C13_plainStream_eq, C13_plainStream_eq]
   cases m with
   | sysline m => simp [ops, wrOf_print_sysline _ m hs, decorated]
-  | fixedstruct m =>
-    have := hx rfl
-    simp [ops, wrOf_print_fixedstruct _ m hs, fixedSwapped]
-    cases f <;> cases d <;> simp_all [optBytes]
+  | fixedstruct m => simp [ops, wrOf_print_fixedstruct _ m hs]
   | evtx m => simp [ops, wrOf_print_evtx _ m hs, decorated, plainOpts]
   | journal m => simp [ops, wrOf_print_journalentry _ m hs, decorated, plainOpts]
 
@@ -197,14 +196,14 @@ theorem C13_strip_buf_full_false : ¬ C13_strip_buf_full := by
   have := h ⟨[], [], []⟩ hp none ⟨false, some [70], none⟩ ⟨[97, 10, 98], 0, 0⟩ (by decide) (by decide) (by decide)
   revert this; decide
 
-/-- accounting records: the escapes removed, what is left is the fields (in the coded order) and
-the record -/
+/-- accounting records: the escapes removed, what is left is the file field, the datetime field
+and the record -/
 theorem C13_strip_fixedstruct (p : Pal) (hp : WFPal p) (last : Last) (o : Opts) (m : BufMsg) (hs : m.beg ≤ m.fin)
     (hesc : ESC ∉ wrOf (ops o (.fixedstruct m))) :
     (stripEsc (bytesOf (render p last o (.fixedstruct m)).1)).drop ((optBytes o.file).length + (optBytes o.date).length)
       = m.data := by
   rw [C13_stripEsc p hp last o _ hesc, C13_field_order_fixedstruct p last o m hs]
-  split <;> simp [List.drop_append, Nat.add_comm]
+  simp [List.drop_append]
 
 /-! ### separator and added newline -/
 
